@@ -152,7 +152,7 @@ def _nonfinite_temps(r):
     return bad
 
 
-def observe(P, post=None, max_steps=None, P_csv=None):
+def observe(P, post=None, max_steps=None, P_csv=None, quiet_logging=False):
     """Render P, apply the optional file-level mutation, run the real path
     and classify. Returns a dict with at least 'outcome'."""
     import dassh
@@ -183,6 +183,11 @@ def observe(P, post=None, max_steps=None, P_csv=None):
             f.write(gen.render_text(P, 'power.csv'))
         if post is not None:
             post(d, path)
+        if quiet_logging:
+            # a calling script may silence logging altogether; the error
+            # exit of an invalid input must not depend on that
+            import logging
+            logging.disable(logging.CRITICAL)
         try:
             o['stage'] = 'input'
             inp = drive.read_input(path)
@@ -202,7 +207,10 @@ def observe(P, post=None, max_steps=None, P_csv=None):
             if not o['msgs'] and len(e.messages) >= 200:
                 # env's capture buffer was full of warnings
                 o['msgs'] = ['(log capture full before the exit)']
-            if not o['msgs']:
+            if not o['msgs'] and quiet_logging:
+                o['outcome'] = ('rejected_late' if o['n_calc'] > 0
+                                else 'rejected')
+            elif not o['msgs']:
                 o['outcome'] = 'exit_silent'
             elif o['n_calc'] > 0:
                 o['outcome'] = 'rejected_late'
@@ -231,6 +239,10 @@ def observe(P, post=None, max_steps=None, P_csv=None):
                                       - P['inlet'])
                 except Exception:
                     pass
+        finally:
+            if quiet_logging:
+                import logging
+                logging.disable(logging.NOTSET)
         o['n_calc'] = hk.n['calc']
         o['n_dz'] = hk.n['dz']
     return o
@@ -2131,6 +2143,21 @@ def run_mutant(case, res):
                                                             'ran'),
                   'input neither rejected with a message nor runnable: '
                   + what, key, _brief(o))
+    if m['expect'] == 'reject' and o['outcome'] == 'rejected' and \
+            case['seed'][-1] % 3 == 0:
+        # the same faulty input with logging silenced by the caller
+        P2, _f2, T2, rng2 = _base_for(case, m['needs'])   # same draws
+        post2 = m['fn'](P2, T2, rng2)
+        follow2 = P2.pop('_power_follows', False)
+        q = observe(P2, post=post2, P_csv=(P2 if follow2 else P0),
+                    quiet_logging=True)
+        res.check('B2_rejection_independent_of_logging',
+                  q['outcome'] == 'rejected',
+                  'impossible input rejected with logging active but not '
+                  'with logging disabled by the caller: %s [%s] -> %s%s'
+                  % (m['key'], m['fault'], q['outcome'],
+                     (' at ' + q['where']) if q.get('where') else ''),
+                  dict(key, logging='disabled'), _brief(q))
     res.nontrivial('B/' + m['id'])
     res.sample({'case': case, 'mutator': m['id'], 'key': m['key'],
                 'fault': m['fault'], 'expect': m['expect'],
